@@ -212,6 +212,21 @@ Definition serve (b : backend) (seq : N) (f : fstate) (wl : writelog) : option w
       end
   end.
 
+(* ---------- multi-hop answers (badger.go:363-470) ---------- *)
+(* badger answers GetWriteLog(start, end) also when end is reached from start
+   through up to two stored hops (IO roots: empty -> i -> io); the answer is
+   the concatenation of the hop logs in path order, oldest hop first. *)
+Fixpoint run_path (old : kvmap) (path : list (list op)) : kvmap :=
+  match path with
+  | [] => old
+  | ops :: r => run_path (contents (run_batch old ops)) r
+  end.
+Fixpoint path_log (old : kvmap) (path : list (list op)) : writelog :=
+  match path with
+  | [] => []
+  | ops :: r => commit_writelog (run_batch old ops) ++ path_log (contents (run_batch old ops)) r
+  end.
+
 (* ---------- comparison helpers for the correspondence ---------- *)
 Fixpoint entry_insert (e : entry) (l : writelog) : writelog :=
   match l with
